@@ -84,6 +84,19 @@ func runSolverOnce(argv []string, script string) string {
 	return "error: " + strings.TrimSpace(out.String())
 }
 
+// maybeCross samples the primary solver's decided queries (assertion queries and the branch
+// feasibility queries whose unsat verdict prunes a path): the 8th of each worker and then every
+// CrossEvery-th one is re-decided by the other solvers.
+func (m *Machine) maybeCross(extra *Term, r Result) {
+	if m.CrossEvery <= 0 || r == Unknown {
+		return
+	}
+	m.crossCount++
+	if m.crossCount == 8 || m.crossCount%m.CrossEvery == 0 {
+		m.crossCheck(extra, r)
+	}
+}
+
 // crossCheck re-decides pc ∧ extra with the independent solvers.
 func (m *Machine) crossCheck(extra *Term, primary Result) {
 	p := m.path
